@@ -1,5 +1,8 @@
 import Infretis.Model.Proto
 import Infretis.Model.Perm
+import Infretis.Model.PermRandom
+import Infretis.Model.PermEval
+import Infretis.Model.PermCache
 open Infretis Infretis.Proto Infretis.Perm
 
 /-- matrix token format: `R` followed by `R` length-prefixed rows of rationals -/
@@ -35,8 +38,117 @@ def showBlocks : Blocks → String
   | .single => "tuple"
   | .list bs => showList (fun b => s!"{b.1},{b.2.1},{b.2.2}") bs
 
+
+/-! ### extension pass: `prep` (intermediate values of inf_retis), `randprob`, `cache` -/
+
+/-- `prep <off> <locks> <W>` → `offset m | sortIdx | equal | blocks | keys of argsort 1 | keys of argsort 2` (the two argsorts joined as the code joins
+    them, the equal-weight test, `find_blocks` on the sorted idle block when the test fails) -/
+def showPrep (off : Nat) (W : Mat) (lk : List Bool) : String :=
+  let s := prepare off W lk
+  if s.m = 0 then "empty" else
+  s!"{s.offset} {s.m} | {showList toString s.sortIdx} | {if s.equal then 1 else 0} | " ++
+    (if s.equal then "-" else showBlocks (findBlocks s.sorted s.offset)) ++
+    s!" | {showList toString (keysMinus off W lk)} | {showList toString (keysPlus off W lk)}"
+
+/-- draws of `randprob`: per iteration `left s1 s2 <rs>` -/
+def takeDraws : Nat → List String → Option (List PermRandom.Draw × List String)
+  | 0, rest => some ([], rest)
+  | k + 1, l :: a :: b :: rest =>
+    match parseNat? l, parseNat? a, parseNat? b, takeList parseRat? rest with
+    | some l, some a, some b, some (rs, rest) =>
+      match takeDraws k rest with
+      | some (ds, rest) => some ({ left := l == 1, s1 := a, s2 := b, rs := rs } :: ds, rest)
+      | none => none
+    | _, _, _, _ => none
+  | _, _ => none
+
+def showReq : PermRandom.Req → String
+  | .c2 => "c2"
+  | .rnd m => s!"rnd{m}"
+
+def showCErr : PermCache.CErr → String
+  | .st .assert => "err:assert" | .st .value => "err:value" | .st .index => "err:index"
+  | .st .key => "err:key" | .st .stall => "err:stall"
+  | .perm e => showErr e
+
+/-- operations of `cache`: `r` | `l e` | `u e` | `sl t e` | `a ens pn <valid>` | `s` | `p` | `x t e` -/
+def takeOps : Nat → List String → Option (List PermCache.Op)
+  | 0, [] => some []
+  | 0, _ => none
+  | k + 1, "r" :: rest => (takeOps k rest).map (fun o => .read :: o)
+  | k + 1, "s" :: rest => (takeOps k rest).map (fun o => .sort :: o)
+  | k + 1, "p" :: rest => (takeOps k rest).map (fun o => .printState :: o)
+  | k + 1, "l" :: e :: rest =>
+    match parseNat? e with
+    | some e => (takeOps k rest).map (fun o => .lock e :: o)
+    | none => none
+  | k + 1, "u" :: e :: rest =>
+    match parseNat? e with
+    | some e => (takeOps k rest).map (fun o => .unlock e :: o)
+    | none => none
+  | k + 1, "sl" :: t :: e :: rest =>
+    match parseNat? t, parseNat? e with
+    | some t, some e => (takeOps k rest).map (fun o => .swapLock t e :: o)
+    | _, _ => none
+  | k + 1, "x" :: t :: e :: rest =>
+    match parseNat? t, parseNat? e with
+    | some t, some e => (takeOps k rest).map (fun o => .rawSwap t e :: o)
+    | _, _ => none
+  | k + 1, "a" :: ens :: pn :: rest =>
+    match parseInt? ens, parseNat? pn, takeList parseRat? rest with
+    | some ens, some pn, some (v, rest) => (takeOps k rest).map (fun o => .addTraj ens pn v :: o)
+    | _, _, _ => none
+  | _, _ => none
+
+def showUse (u : PermCache.Use) : String := showRes u.val
+
+/-- per operation: `N`/`S` (is `_last_prob` None afterwards), the locks, the matrices handed out -/
+def showTraceItem : Except PermCache.CErr (PermCache.C × List PermCache.Use) → String
+  | .error e => showCErr e
+  | .ok (c, us) =>
+    (if c.cache.isNone then "N" else "S") ++ " " ++ String.join (c.s.locks.map (fun b => if b then "1" else "0"))
+      ++ (us.foldl (fun acc u => acc ++ " # " ++ showUse u) "")
+
 def handle (toks : List String) : String :=
   match toks with
+  | "prep" :: off :: rest =>               -- prep <off> <locks> <W>
+    match parseNat? off, takeList parseNat? rest with
+    | some off, some (locks, rest) =>
+      match takeMat rest with
+      | some (W, []) => showPrep off W (locks.map (fun x => x == 1))
+      | _ => "bad-op"
+    | _, _ => "bad-op"
+  | "randprob" :: n :: rest =>             -- randprob <n> <draws> <arr> → requests | final temp[0] | matrix
+    match parseNat? n with
+    | some n =>
+      match takeDraws n rest with
+      | some (ds, rest) =>
+        match takeMat rest with
+        | some (arr, []) =>
+          showList showReq (PermRandom.requests arr.length) ++ " | " ++
+            showList toString (PermRandom.finalPerm arr ds) ++ " | " ++ showMat (PermRandom.randomProb arr ds)
+        | _ => "bad-op"
+      | none => "bad-op"
+    | none => "bad-op"
+  | "cache" :: n :: ti :: rest =>          -- cache <n> <toinitiate> <locks> <trajs (-1 = none)> <W> <nops> ops…
+    match parseNat? n, parseInt? ti, takeList parseNat? rest with
+    | some n, some ti, some (locks, rest) =>
+      match takeList parseInt? rest with
+      | some (trajs, rest) =>
+        match takeMat rest with
+        | some (W, k :: rest) =>
+          match parseNat? k with
+          | some k =>
+            match takeOps k rest with
+            | some ops =>
+              let c := PermCache.mkC n ti W (locks.map (fun x => x == 1))
+                (trajs.map (fun t => if t < 0 then none else some t.toNat))
+              String.intercalate " ; " ((PermCache.trace c ops).map showTraceItem)
+            | none => "bad-op"
+          | none => "bad-op"
+        | _ => "bad-op"
+      | none => "bad-op"
+    | _, _, _ => "bad-op"
   | "spec" :: rest =>                      -- spec <locks> <W>  → probMatrix, or "perm0" if the idle permanent is 0
     match takeList parseNat? rest with
     | some (locks, rest) =>
